@@ -8,7 +8,8 @@ From LV Require Import Base.Bytes Base.Sx Model.Obj Model.Writer Model.Parser Mo
   Proofs.XrefTableProofs Proofs.ObjectRtProofs Proofs.SpellingProofs Proofs.SpellingObjProofs Proofs.SpellingFileProofs
   Proofs.LoadsFrameProofs Proofs.LoadsTableProofs Proofs.FilterProofsDict.
 From LV Require Import Model.LoaderExt Proofs.LoaderExtProofs Proofs.LoadsLoopProofs.
-From LV Require Proofs.C07Bytes Proofs.LoadProofsStream.
+From LV Require Proofs.C07Bytes Proofs.LoadProofsStream Model.Png.
+From LV Require Import Proofs.LoadsFilterProofs.
 From LV Require Import Proofs.LoadsStreamProofs Proofs.LoadsMultiXSec.
 From Coq Require Import Lia.
 Local Open Scope N_scope.
@@ -161,7 +162,11 @@ Section Multi.
     match mp_xref p with
     | XTable t => trailer_dom t
     | XStream x =>
-      xs_filter x = SfNone /\ In (xs_id x) xids /\
+      (xs_filter x = SfNone \/
+       (dec = decompress_ref /\ can = can_ref /\
+        N.of_nat (xq_w0 x (p_entry p pos known) (p_secs p pos prev known maxnum) + xq_w1 x (p_entry p pos known) (p_secs p pos prev known maxnum) +
+                  xq_w2 x (p_entry p pos known) (p_secs p pos prev known maxnum)) <= Png.USIZE_MAX /\
+        dict_get (a_trailer a) K_DecodeParms = None)) /\ In (xs_id x) xids /\
       spell_wf (ODict (xq_d a x (p_entry p pos known) (p_secs p pos prev known maxnum) (p_size p maxnum) (p_prev prev)))
                (i_obj (xs_istyle x)) /\
       (nest (ODict (xq_d a x (p_entry p pos known) (p_secs p pos prev known maxnum) (p_size p maxnum) (p_prev prev))) <= MAX_DEPTH)%nat
@@ -941,7 +946,7 @@ Section Multi.
     Lemma tail_consS : exists b r, startxref_text (with_part st p last) xpos = b :: r.
     Proof. rewrite startxref_text_block. unfold sx_block. eexists. eexists. reflexivity. Qed.
 
-    Lemma xq_h : xq_hyps a x en secs sz (p_prev prev).
+    Lemma xq_h : xq_hyps a x en secs sz (p_prev prev) dec can.
     Proof.
       pose proof Hok as Hok'. unfold part_ok in Hok'. rewrite Hfmt in Hok'. destruct Hok' as [Hf [Hxin [Hw Hn]]].
       destruct secs_propsS as [S1 [S2 [S3 S4]]].
@@ -996,8 +1001,11 @@ Section Multi.
       pose proof xq_h as Hh. destruct Hh as [_ [_ [_ [_ [_ [_ [[Hw _] _]]]]]]]. split; [exact Hw|].
       destruct (xq_all' a x en secs sz (p_prev prev) dec can xq_h) as [_ [_ [_ [_ [_ [_ [F7 F8]]]]]]].
       intros k Hk. split.
-      - apply F7. rewrite (excl_beq' k Xref.K_Index Hk), (excl_beq' k Xref.K_W Hk), (excl_beq' k Obj.K_Length Hk) by (cbn; tauto). reflexivity.
-      - rewrite F8 by (apply (fun k0 H => excl_beq k0 k Hk H); cbn; tauto). destruct (dict_get (a_trailer a) k); [reflexivity|].
+      - apply F7. unfold xq_tkey.
+        rewrite (excl_beq' k Xref.K_Index Hk), (excl_beq' k Xref.K_W Hk), (excl_beq' k Obj.K_Length Hk), (excl_beq' k K_Filter Hk),
+          (excl_beq' k K_DecodeParms Hk) by (cbn; tauto). reflexivity.
+      - rewrite F8; [|first [apply (excl_beq _ k Hk)|apply (excl_beq' k _ Hk)]; cbn; tauto ..].
+        destruct (dict_get (a_trailer a) k); [reflexivity|].
         destruct prev; cbn [p_prev dict_get]; [rewrite (excl_beq K_PrevW k Hk) by (cbn; tauto)|]; reflexivity.
     Qed.
 
